@@ -37,7 +37,7 @@ SHARDS = {"quick": 4, "thorough": 16}
 INT_VALS = st.integers(-9, 9)
 BINOPS = ["add", "sub", "mul", "truediv", "floordiv", "mod", "pow", "eq", "ne", "lt", "le", "gt", "ge"]
 BITOPS = ["or", "and", "xor"]
-MUTATING = {"set_elem", "set_row", "set_rows", "set_row_slice", "set_2d", "set_col", "set_fancy", "set_mask",
+MUTATING = {"set_elem", "set_row", "set_rows", "set_row_slice", "set_2d", "set_col", "set_cols", "set_fancy", "set_mask",
             "append", "iop", "iop_2d"}
 
 
@@ -259,6 +259,26 @@ class Core:
             self.m[r][j] = v if op["form"] == "scalar" else arr(v, self.dtype)[k]
         return t
 
+    def op_set_cols(self, op):
+        rows = self.rows_of(op["rows"])
+        cols = op["cols"]
+        ok = all(-len(self.m[r]) <= c < len(self.m[r]) for r in rows for c in cols)
+        v = op["v"]
+        if op["form"] == "scalar":
+            val = v
+        elif op["form"] == "nested":
+            val = [list(arr(x, self.dtype).tolist()) for x in v]
+        else:
+            val = ra.RaggedArray([arr(x, self.dtype) for x in v])
+        key = (self.sel_obj(op["rows"]), list(cols) if op["cols_as"] == "list" else np.array(cols, dtype=int))
+        if not ok:
+            self.lib_must_raise(lambda: self.a.__setitem__(key, val), "a column-list write outside some selected row")
+        t = self.run_write(lambda: self.a.__setitem__(key, val), len(rows) == 0)
+        for k, r in enumerate(rows):
+            for q, c in enumerate(cols):
+                self.m[r][c] = v if op["form"] == "scalar" else arr(v[k], self.dtype)[q]
+        return t
+
     def op_set_fancy(self, op):
         ii, jj = op["i"], op["j"]
         n = len(self.m)
@@ -301,6 +321,11 @@ class Core:
         return t
 
     def op_append(self, op):
+        if op.get("promote"):
+            # appended rows of a wider element type promote the whole array (numpy concatenation semantics), they are
+            # never cast down to the old element type
+            self.dtype = "float64"
+            self.m = [r.astype("float64") for r in self.m]
         rows = [arr(r, self.dtype) for r in op["rows"]]
         if op["as"] == "ragged":
             self.a.append(ra.RaggedArray([r.copy() for r in rows]))
@@ -594,6 +619,30 @@ def make_machine(hooks):
 
         @precondition(lambda self: self.alive())
         @rule(data=st.data())
+        def set_cols(self, data):
+            """a[row slice, [c1, c2, ...]] = value: every selected row gets the listed columns written, in row-major order."""
+            if self.core.vec:
+                return
+            n = len(self.core.m)
+            start = data.draw(st.sampled_from([None, 0, 1]))
+            stop = data.draw(st.sampled_from([None, None, 2, 3, n]))
+            sel = {"kind": "slice", "v": [start, stop, data.draw(st.sampled_from([None, None, 2]))]}
+            rows = self.core.rows_of(sel)
+            if not rows:
+                return
+            minlen = min(len(self.core.m[r]) for r in rows)
+            k = data.draw(st.integers(1, min(3, minlen)))
+            cols = data.draw(st.lists(st.integers(-minlen, minlen - 1), min_size=k, max_size=k,
+                                      unique_by=lambda c: c % minlen))
+            if data.draw(st.integers(0, 11)) == 0:
+                cols = cols + [minlen + 1]
+            form = data.draw(st.sampled_from(["scalar", "nested", "ragged"]))
+            v = self.val(data) if form == "scalar" else [self.val(data, len(cols)) for _ in rows]
+            self.do({"op": "set_cols", "rows": sel, "cols": cols, "cols_as": data.draw(st.sampled_from(["list", "array"])),
+                     "form": form, "v": v})
+
+        @precondition(lambda self: self.alive())
+        @rule(data=st.data())
         def set_fancy(self, data):
             if self.core.vec:
                 return
@@ -637,6 +686,11 @@ def make_machine(hooks):
         @rule(data=st.data())
         def append(self, data):
             k = data.draw(st.integers(1, 3))
+            promote = self.core.dtype == "int64" and not self.core.vec and data.draw(st.integers(0, 5)) == 0
+            if promote:
+                rows = [[v + 0.5 for v in self.val(data, data.draw(st.integers(1, 4)))] for _ in range(k)]
+                self.do({"op": "append", "rows": rows, "as": data.draw(st.sampled_from(["ragged", "arrays"])), "promote": True})
+                return
             rows = [self.val(data, data.draw(st.integers(1, 4))) for _ in range(k)]
             self.do({"op": "append", "rows": rows, "as": data.draw(st.sampled_from(["ragged", "arrays", "lists"]))})
 
